@@ -46,6 +46,11 @@ Proof.
   right; right. repeat split; lia.
 Qed.
 
+Lemma total_or_pos : forall r n, (0 < n)%nat -> total_or r n = Z.of_nat n.
+Proof. intros r n H. unfold total_or. destruct (0 <? n)%nat eqn:E; [reflexivity | lia]. Qed.
+Lemma total_or_0 : forall r, total_or r O = r.
+Proof. reflexivity. Qed.
+
 Section Inv.
   Variable lens : list nat.
   Variable sh : shape.
@@ -134,6 +139,7 @@ Section Inv.
     positions lens rs = seq F (total lens - F) ->
     exists r s', kcall lens cnt rs x s = (r, s') /\ s_nb s' = true /\
       ((r = -1 /\ s_errno s' <> 0 /\ last_err (s_reqs s') = Some (s_errno s')
+        /\ fail_errno (snd x) = Some (s_errno s')
         /\ Good (would_block sh (s_errno s')) s' F)
        \/ (exists m, r = Z.of_nat m /\ m = Nat.min (avail (snd x)) (total lens - F)
                      /\ s_errno s' = 0 /\ Good false s' (F + m))).
@@ -142,7 +148,7 @@ Section Inv.
     destruct (fail_errno (snd x)) as [e|] eqn:FE.
     - rewrite (kcall_fail _ _ _ _ _ _ FE). eexists _, _. split; [reflexivity|]. split; [exact NB|].
       left. cbn [s_errno s_reqs]. split; [reflexivity|]. split; [exact (wf_entry_fail_nonzero _ _ W FE)|].
-      split; [apply last_err_snoc|]. unfold Good. cbn [s_reqs s_moved s_waits]. now apply goodL_fail.
+      split; [apply last_err_snoc|]. split; [reflexivity|]. unfold Good. cbn [s_reqs s_moved s_waits]. now apply goodL_fail.
     - rewrite (kcall_succ _ _ _ _ _ FE). eexists _, _. split; [reflexivity|]. split; [exact NB|].
       right. destruct (goodL_succ _ _ _ F cnt (s_nb s) rs (avail (snd x)) G R C P) as [L G'].
       eexists. split; [reflexivity|]. split; [exact L|]. split; [reflexivity|]. exact G'.
@@ -161,7 +167,32 @@ Section Inv.
   Definition RW (r : Z) (s : st) (F : nat) : Prop :=
     F = O -> r = 0 \/
              (r = -1 /\ (0 < total lens)%nat /\ last_err (s_reqs s) = Some (s_errno s) /\ s_errno s <> 0).
+  (** a return value for [F] bytes moved, before or after the mode is restored *)
+  Lemma finalF_total_or : forall r s F wb, Good wb s F -> s_nb s = true ->
+    RW r s F -> (wb = true -> F = O -> r = -1 /\ last_err (s_reqs s) = Some (s_errno s)) ->
+    FinalF true (total_or r F) s.
+  Proof.
+    intros r s F wb G NB RWr Wb. exists F, wb. split; [exact G|]. split; [exact NB|].
+    destruct F as [|F].
+    - rewrite total_or_0. split; [|exact (fun H _ => Wb H eq_refl)].
+      destruct (RWr eq_refl) as [R0 | (R1 & T & LE & NZ)]; [left; subst; reflexivity | right; auto].
+    - rewrite total_or_pos by lia. split; [left; reflexivity | intros; discriminate].
+  Qed.
+
+  Lemma finalF_exact : forall s F, Good false s F -> s_nb s = true ->
+    FinalF true (Z.of_nat F) s.
+  Proof.
+    intros s F G NB. exists F, false. split; [exact G|]. split; [exact NB|].
+    split; [left; reflexivity | intros; discriminate].
+  Qed.
+
 End Inv.
+
+Lemma good_init : forall lens sh c, Good lens sh (c_nb c) false (init_st c) O.
+Proof.
+  intros lens sh c. unfold Good, GoodL, init_st. cbn [s_reqs s_moved s_waits fold_left].
+  repeat split; auto; try lia.
+Qed.
 
 (** * from [Final] to the oracles *)
 Lemma final_C16 : forall c d r s, shape_dir (c_shape c) = Some d ->
